@@ -26,6 +26,15 @@
      Dev_PendingNotCleared   store.pendingSnapshot survives a new assembly
      Dev_OpKeepsCheckpoint   Operator.HandleDeploy keeps o.checkpoint
      Dev_SplitterAppended    RegisterSourceSplitter appends on every start
+   Two further deviations (seeded regressions, witness generation):
+     Dev_TickerNotRecreated              the periodic checkpoint ticker is created only once (checkpointTicker == nil) while
+                                         every pause still Stop()s it: after the first recovery nothing starts a checkpoint
+     Dev_StaleCheckpointSurvivesRedeploy HandleDeploy drops o.checkpoint only while barriers are still missing: a survivor
+                                         whose checkpoint had every barrier but whose acknowledgement the job refused (the
+                                         pending checkpoint was discarded by the new start) keeps it through the redeploy
+
+   ticker: the job's periodic "checkpointing" ticker on a clock where Stop is effective (production SystemClock):
+   "none" never created, "live", "stopped".  Created by the task that sets Running, stopped wherever the job pauses.
 *)
 EXTENDS Integers, Sequences, FiniteSets, TLC, Json
 
@@ -38,15 +47,16 @@ CONSTANTS W,          \* config.WorkerCount
           Focus,      \* TRUE (targeted generation only): no idle heartbeats, faults strike members of the assembly
           Faults,     \* subset of {"Kill", "Deregister"}: the fault actions that are enabled
           Live,       \* TRUE: liveness variant (no history, ids renormalised, fault budget MaxEv)
-          Dev_PendingNotCleared, Dev_OpKeepsCheckpoint, Dev_SplitterAppended
+          Dev_PendingNotCleared, Dev_OpKeepsCheckpoint, Dev_SplitterAppended,
+          Dev_TickerNotRecreated, Dev_StaleCheckpointSurvivesRedeploy
 
 VARIABLES reg, hb, now, alive, status, asm, st, ckptId, pend, publishing, completed,
-          splitters, dep, sck, ock, msgs, nev, nflaky, pubs, taint, hist
+          splitters, dep, sck, ock, msgs, nev, nflaky, pubs, taint, ticker, hist
 
 vars == <<reg, hb, now, alive, status, asm, st, ckptId, pend, publishing, completed,
-          splitters, dep, sck, ock, msgs, nev, nflaky, pubs, taint, hist>>
+          splitters, dep, sck, ock, msgs, nev, nflaky, pubs, taint, ticker, hist>>
 view == <<reg, hb, now, alive, status, asm, st, ckptId, pend, publishing, completed,
-          splitters, dep, sck, ock, msgs, nev, nflaky, pubs, taint>>
+          splitters, dep, sck, ock, msgs, nev, nflaky, pubs, taint, ticker>>
 
 Ids   == 1..N
 Kinds == {"op", "sr"}
@@ -70,7 +80,7 @@ Init ==
   /\ st = (IF Boot >= W THEN [NoSt EXCEPT !.ph = "spawned"] ELSE NoSt)
   /\ ckptId = 0 /\ pend = NoPend /\ publishing = {} /\ completed = 0 /\ splitters = 0
   /\ dep = [n \in Node |-> NoDep] /\ sck = [i \in Ids |-> 0] /\ ock = [i \in Ids |-> NoOck]
-  /\ msgs = {} /\ nev = 0 /\ nflaky = 0 /\ pubs = 0 /\ taint = {} /\ hist = <<>>
+  /\ msgs = {} /\ nev = 0 /\ nflaky = 0 /\ pubs = 0 /\ taint = {} /\ ticker = "none" /\ hist = <<>>
 
 Log(r) == hist' = IF Live THEN hist ELSE Append(hist, r)
 
@@ -106,9 +116,12 @@ Eval(r0, h0, s0, a0) ==
              spawn |-> TRUE]
      ELSE [reg |-> r, hb |-> h, status |-> s0, asm |-> a0, spawn |-> FALSE]
 
+\* wherever the job pauses it stops its checkpoint ticker
+Stopped(t) == IF t = "live" THEN "stopped" ELSE t
 ApplyEval(e) ==
   /\ reg' = e.reg /\ hb' = e.hb /\ status' = e.status /\ asm' = e.asm
   /\ st' = IF e.spawn THEN [NoSt EXCEPT !.ph = "spawned"] ELSE st
+  /\ ticker' = IF status = "Running" /\ e.status # "Running" THEN Stopped(ticker) ELSE ticker
 
 EvObs(e) == [status |-> e.status, ops |-> SetSeq(e.reg.op), srs |-> SetSeq(e.reg.sr), spawn |-> e.spawn,
              aops |-> SetSeq(e.asm.ops), asrs |-> SetSeq(e.asm.srs)]
@@ -157,7 +170,7 @@ Kill(n) ==
   /\ Gone(n)
   /\ nev' = nev + 1
   /\ Log([a |-> "Kill", kind |-> n[1], i |-> n[2], ctx |-> FaultCtx(n)])
-  /\ UNCHANGED <<reg, hb, now, status, asm, st, ckptId, pend, publishing, completed, splitters, dep, nflaky, pubs, taint>>
+  /\ UNCHANGED <<reg, hb, now, status, asm, st, ckptId, pend, publishing, completed, splitters, dep, nflaky, pubs, taint, ticker>>
 
 \* the clock passes one heartbeat deadline: every node that has not heartbeated
 \* since the previous Advance is now expired (noticed at the next membership event).
@@ -169,18 +182,18 @@ Advance ==
   /\ hb' = [n \in Node |-> IF hb[n] <= 0 THEN hb[n] ELSE hb[n] - 1]
   /\ nev' = nev + 1
   /\ Log([a |-> "Advance"])
-  /\ UNCHANGED <<reg, now, alive, status, asm, st, ckptId, pend, publishing, completed, splitters, dep, sck, ock, msgs, nflaky, pubs, taint>>
+  /\ UNCHANGED <<reg, now, alive, status, asm, st, ckptId, pend, publishing, completed, splitters, dep, sck, ock, msgs, nflaky, pubs, taint, ticker>>
 
 \* liveness variant: time passes; live nodes heartbeat in time, dead ones expire ...
 AdvanceLive ==
   /\ Live /\ \E n \in Node \ alive : hb[n] > 0
   /\ hb' = [n \in Node |-> IF n \notin alive /\ hb[n] > 0 THEN 0 ELSE hb[n]]
-  /\ UNCHANGED <<reg, now, alive, status, asm, st, ckptId, pend, publishing, completed, splitters, dep, sck, ock, msgs, nev, nflaky, pubs, taint, hist>>
+  /\ UNCHANGED <<reg, now, alive, status, asm, st, ckptId, pend, publishing, completed, splitters, dep, sck, ock, msgs, nev, nflaky, pubs, taint, ticker, hist>>
 \* ... unless a live node's heartbeats are delayed beyond the deadline (a fault)
 ExpireLive(n) ==
   /\ Live /\ nev < MaxEv /\ n \in alive /\ hb[n] > 0
   /\ hb' = [hb EXCEPT ![n] = 0] /\ nev' = nev + 1
-  /\ UNCHANGED <<reg, now, alive, status, asm, st, ckptId, pend, publishing, completed, splitters, dep, sck, ock, msgs, nflaky, pubs, taint, hist>>
+  /\ UNCHANGED <<reg, now, alive, status, asm, st, ckptId, pend, publishing, completed, splitters, dep, sck, ock, msgs, nflaky, pubs, taint, ticker, hist>>
 
 -----------------------------------------------------------------------------
 (* start() on its own goroutine.  StartAssembly = its first half: (repaired:
@@ -195,20 +208,24 @@ StartAssembly ==
   /\ taint' = taint \cup (IF Dev_PendingNotCleared /\ pend.on THEN {"Dev_PendingNotCleared"} ELSE {})
                     \cup (IF Dev_SplitterAppended /\ splitters >= 1 THEN {"Dev_SplitterAppended"} ELSE {})
   /\ Log([a |-> "StartAssembly", ops |-> SetSeq(asm.ops), srs |-> SetSeq(asm.srs), ck |-> completed, gen |-> asm.gen])
-  /\ UNCHANGED <<reg, hb, now, alive, status, asm, ckptId, publishing, completed, dep, sck, ock, msgs, nev, nflaky, pubs>>
+  /\ UNCHANGED <<reg, hb, now, alive, status, asm, ckptId, publishing, completed, dep, sck, ock, msgs, nev, nflaky, pubs, ticker>>
 
 \* the task start() queues when every Deploy has returned
 Finish(out2, failed2) ==
   IF out2 # {} THEN /\ st' = [st EXCEPT !.out = out2, !.failed = failed2]
-                    /\ UNCHANGED <<reg, hb, status, asm>>
+                    /\ UNCHANGED <<reg, hb, status, asm, ticker>>
   ELSE IF failed2
-    THEN \* "failed to start job": Paused, then evaluate
+    THEN \* "failed to start job": Paused (a ticker, if any, is stopped), then evaluate
          LET e == Eval(reg, hb, "Paused", asm) IN
          /\ reg' = e.reg /\ hb' = e.hb /\ status' = e.status /\ asm' = e.asm
          /\ st' = IF e.spawn THEN [NoSt EXCEPT !.ph = "spawned"] ELSE NoSt
-    ELSE \* splitter.Start, "running", checkpoint ticker, evaluate
-         LET e == Eval(reg, hb, "Running", asm) IN
+         /\ ticker' = Stopped(ticker)
+    ELSE \* splitter.Start, "running", a NEW checkpoint ticker, evaluate (which may pause again at once)
+         LET e == Eval(reg, hb, "Running", asm)
+             t1 == IF Dev_TickerNotRecreated /\ ticker # "none" THEN ticker ELSE "live"
+         IN
          /\ reg' = e.reg /\ hb' = e.hb /\ status' = e.status /\ asm' = e.asm /\ st' = NoSt
+         /\ ticker' = IF e.status # "Running" THEN Stopped(t1) ELSE t1
 
 FinObs(out2, failed2) ==
   IF out2 # {} THEN [done |-> FALSE]
@@ -221,8 +238,13 @@ DeployDone(n) ==
   /\ st.ph = "deploying" /\ n \in st.out /\ n \in alive
   /\ dep' = [dep EXCEPT ![n] = [gen |-> asm.gen, ck |-> st.ck, ops |-> asm.ops, srs |-> asm.srs]]
   /\ IF n[1] = "op"
-       THEN /\ ock' = IF Dev_OpKeepsCheckpoint THEN ock ELSE [ock EXCEPT ![n[2]] = NoOck]
+       THEN LET \* the operator's checkpoint had every barrier of its deployment but was never acknowledged successfully
+                complete == ock[n[2]].on /\ ock[n[2]].got = dep[n].srs
+                keep == Dev_OpKeepsCheckpoint \/ (Dev_StaleCheckpointSurvivesRedeploy /\ complete)
+            IN
+            /\ ock' = IF keep THEN ock ELSE [ock EXCEPT ![n[2]] = NoOck]
             /\ taint' = taint \cup (IF Dev_OpKeepsCheckpoint /\ ock[n[2]].on THEN {"Dev_OpKeepsCheckpoint"} ELSE {})
+                               \cup (IF Dev_StaleCheckpointSurvivesRedeploy /\ complete THEN {"Dev_StaleCheckpointSurvivesRedeploy"} ELSE {})
             /\ sck' = sck
        ELSE /\ sck' = [sck EXCEPT ![n[2]] = 0] /\ ock' = ock /\ taint' = taint
   /\ Finish(st.out \ {n}, st.failed)
@@ -242,7 +264,7 @@ DeployFail(n) ==
 -----------------------------------------------------------------------------
 \* the "checkpointing" ticker (registered while Running)
 Tick ==
-  /\ status = "Running" /\ (IF Live THEN publishing = {} ELSE nev < MaxEv)
+  /\ status = "Running" /\ ticker = "live" /\ (IF Live THEN publishing = {} ELSE nev < MaxEv)
   /\ nev' = IF Live THEN nev ELSE nev + 1
   /\ pubs' = IF Live THEN 0 ELSE pubs
   /\ IF pend.on
@@ -252,7 +274,7 @@ Tick ==
             /\ pend' = [on |-> TRUE, id |-> ckptId + 1, ops |-> asm.ops, srs |-> asm.srs, acked |-> {}, gen |-> asm.gen]
             /\ sck' = [i \in Ids |-> IF i \in asm.srs /\ Sr(i) \in alive THEN ckptId + 1 ELSE sck[i]]
             /\ Log([a |-> "Tick", created |-> TRUE, id |-> ckptId + 1, srs |-> SetSeq(asm.srs)])
-  /\ UNCHANGED <<reg, hb, now, alive, status, asm, st, publishing, completed, splitters, dep, ock, msgs, nflaky, taint>>
+  /\ UNCHANGED <<reg, hb, now, alive, status, asm, st, publishing, completed, splitters, dep, ock, msgs, nflaky, taint, ticker>>
 
 \* store.Add*Snapshot: accepted iff it is for the pending checkpoint and from one of its nodes
 Accepts(n, id) == pend.on /\ pend.id = id /\ n \in NodesOf(pend.ops, pend.srs)
@@ -283,7 +305,7 @@ SrCkpt(s) ==
                ELSE msgs
   /\ sck' = [sck EXCEPT ![s] = 0]
   /\ Log([a |-> "SrCkpt", i |-> s, id |-> sck[s], ack |-> AckObs(Sr(s), sck[s])])
-  /\ UNCHANGED <<reg, hb, now, alive, status, asm, st, ckptId, completed, splitters, dep, ock, nev, nflaky, pubs>>
+  /\ UNCHANGED <<reg, hb, now, alive, status, asm, st, ckptId, completed, splitters, dep, ock, nev, nflaky, pubs, ticker>>
 
 \* operator o receives the barrier of runner s
 OpBarrier(m) ==
@@ -297,11 +319,14 @@ OpBarrier(m) ==
      IN IF all
           THEN /\ JobAck(Op(m.o), m.id)
                /\ ock' = [ock EXCEPT ![m.o] = IF Accepts(Op(m.o), m.id) /\ ~Panics(AfterAck(Op(m.o), m.id)) THEN NoOck ELSE c2]
-               /\ Log([a |-> "OpBarrier", s |-> m.s, o |-> m.o, id |-> m.id, all |-> TRUE, ack |-> AckObs(Op(m.o), m.id)])
+               \* (ack.ok = FALSE with redeploying = TRUE: the LATE acknowledgement of a checkpoint the new start has discarded,
+               \*  from a survivor whose Deploy is still outstanding; its checkpoint object stays, complete and unacknowledged)
+               /\ Log([a |-> "OpBarrier", s |-> m.s, o |-> m.o, id |-> m.id, all |-> TRUE, ack |-> AckObs(Op(m.o), m.id),
+                       redeploying |-> (st.ph = "deploying" /\ Op(m.o) \in st.out)])
           ELSE /\ ock' = [ock EXCEPT ![m.o] = c2]
                /\ Log([a |-> "OpBarrier", s |-> m.s, o |-> m.o, id |-> m.id, all |-> FALSE, refused |-> mismatch])
                /\ UNCHANGED <<pend, publishing, taint>>
-  /\ UNCHANGED <<reg, hb, now, alive, status, asm, st, ckptId, completed, splitters, dep, sck, nev, nflaky, pubs>>
+  /\ UNCHANGED <<reg, hb, now, alive, status, asm, st, ckptId, completed, splitters, dep, sck, nev, nflaky, pubs, ticker>>
 
 \* finishSnapshotAsync of checkpoint id: the file is written, CurrentCheckpoint moves
 Quiescent == msgs = {} /\ ~pend.on /\ \A i \in Ids : sck[i] = 0 \/ dep[Sr(i)].gen = 0
@@ -316,7 +341,7 @@ Publish(id) ==
        ELSE /\ completed' = IF id > completed THEN id ELSE completed
             /\ UNCHANGED <<ckptId, ock>>
   /\ Log([a |-> "Publish", id |-> id, completed |-> IF id > completed THEN id ELSE completed])
-  /\ UNCHANGED <<reg, hb, now, alive, status, asm, st, pend, splitters, dep, sck, msgs, nev, nflaky, taint>>
+  /\ UNCHANGED <<reg, hb, now, alive, status, asm, st, pend, splitters, dep, sck, msgs, nev, nflaky, taint, ticker>>
 
 -----------------------------------------------------------------------------
 Internal == StartAssembly \/ (\E n \in Node : DeployDone(n) \/ DeployFail(n))
@@ -334,6 +359,7 @@ Spec == Init /\ [][Next]_vars
 TypeOK == /\ status \in {"Init", "Paused", "Starting", "Running"}
           /\ st.ph \in {"none", "spawned", "deploying"}
           /\ (status = "Starting") = (st.ph # "none")
+          /\ ticker \in {"none", "live", "stopped"}
 
 \* every Deploy / StartCheckpoint goes to a member of an assembly of exactly W registered operators and W registered runners
 FullAsm(a) == Cardinality(a.ops) = W /\ Cardinality(a.srs) = W
@@ -359,7 +385,10 @@ NoLeftover ==
     /\ splitters = 1
     /\ \A o \in asm.ops : ock[o].on => ock[o].gen = asm.gen
 
-Safety == TypeOK /\ DeployOnlyToLiveFull /\ StopsUsingDeadAssembly /\ RedeployFromNewest /\ NoLeftover
+\* "new checkpoints complete again": a running job has a live periodic checkpoint ticker (on a clock where Stop is effective)
+TickerLive == status = "Running" => ticker = "live"
+
+Safety == TypeOK /\ DeployOnlyToLiveFull /\ StopsUsingDeadAssembly /\ RedeployFromNewest /\ NoLeftover /\ TickerLive
 
 -----------------------------------------------------------------------------
 (* Liveness (Live = TRUE; MaxEv = fault budget): as long as enough nodes stay alive,
@@ -382,7 +411,7 @@ LiveConstraint == ckptId <= 3 /\ asm.gen <= 4
 Terminal == ~ENABLED (Internal \/ External)
 Dump == (Len(hist) >= MaxLen \/ Terminal) => PrintT(<<"BEHAVIOUR", ToJson(hist)>>)
 \* states in which the (unrepaired) design is stuck behind a leftover: used with a Dev_* constant TRUE
-CexDump == (~NoLeftover /\ Len(hist) < MaxLen) => PrintT(<<"BEHAVIOUR", ToJson(hist)>>)
+CexDump == (~(NoLeftover /\ TickerLive) /\ Len(hist) < MaxLen) => PrintT(<<"BEHAVIOUR", ToJson(hist)>>)
 \* shortest counterexample (breadth-first, with the VIEW): print the history of the first bad state and stop there
-CexStop == NoLeftover \/ ~PrintT(<<"BEHAVIOUR", ToJson(hist)>>)
+CexStop == (NoLeftover /\ TickerLive) \/ ~PrintT(<<"BEHAVIOUR", ToJson(hist)>>)
 =============================================================================
